@@ -1041,7 +1041,7 @@ impl Prop for C18 {
             ops.push(HOp::Revoke { d: -1 });
             ops.push(HOp::Revoke { d: -2 });
             let anchors = case.ids.first().map(|i| i.anchors).unwrap_or(false);
-            let hc = HCase { anchors, outbound: true, ops, proto, onchain: false, refused_setup: 0 };
+            let hc = HCase { anchors, outbound: true, ops, proto, onchain: false, refused_setup: 0, carve_out: false };
             let mut m = machine_for(&hc);
             for (i, op) in hc.ops.iter().enumerate() {
                 if m.is_dead() {
